@@ -32,3 +32,45 @@ PROPS["C01"] = {
         {"name": "release_boundary", "build": "release", "bin": "c01"},
     ],
 }
+
+
+def prop(pid, technique, level_text, level_note, rule, stages, extra_assumptions=()):
+    PROPS[pid] = {
+        "level": "exploration",
+        "technique": technique,
+        "level_text": level_text,
+        "level_note": level_note,
+        "rule": rule,
+        "assumptions": COMMON_ASSUMPTIONS + list(extra_assumptions),
+        "stages": stages,
+    }
+
+
+prop("C02",
+     technique="runtime monitoring: exhaustive/stratified input enumeration against exact rounding/truncation oracles (bit-for-bit), debug-assertion and release builds",
+     level_text=("int->float: every value of every <=24-bit (quick) / <=32-bit (thorough) format, structured+stratified for 48/64-bit, compared bit-for-bit with a "
+                 "correctly-rounded quotient computed from the integer. float->int: every f32 bit pattern in [-1,1) x 12 formats (thorough; quick: structured "
+                 "mantissas x all exponents + 4M stratified patterns), structured+random f64, compared with exact truncation in i128. f32<->f64 against own RNE. "
+                 "Exploration: f64 and 48/64-bit inputs cannot be enumerated."),
+     level_note="trusted: vmon::spec::{rne, float_to_int, f64_to_f32} (unit-tested, independent of `as` casts except on exactly representable values), rustc's IEEE semantics for * by powers of two",
+     rule=("cases are (conversion, input value); enumerated completely where the source has <= 2^24 (quick) / 2^32 (thorough) values, else structured boundary "
+           "sets + one random value per stratum; non-trivial = input not in {MIN, equilibrium} (ints) / {-1.0, +-0.0} (floats), the points the test-suite "
+           "checks; counted by construction for enumerations/strata, by hash set for structured f64 and f64->f32 inputs"),
+     stages=[
+         {"name": "main", "build": "fast", "bin": "c02"},
+         {"name": "release_boundary", "build": "release", "bin": "c02"},
+     ])
+
+prop("C15",
+     technique="runtime monitoring: exhaustive (11-bit) / structured+random operand enumeration against an i128 modular-arithmetic oracle, in both debug-assertion and release builds",
+     level_text=("All 2048^2 operand pairs x (+,-,*) and all negations of I11/U11, all 65536 backing-integer inputs to new()/From, every widening From impl over its whole "
+                 "(or strided) source range, structured^2 + random operand pairs for the 20/24/48-bit types; the same monitor runs in a debug-assertion build "
+                 "(overflow must panic, catch_unwind) and a stock release build (must wrap). Exploration: 2^48 x 2^48 operand pairs cannot be enumerated."),
+     level_note="trusted: i128 rem_euclid oracle; cfg!(debug_assertions) of the harness build equals that of dasp_sample (same cargo profile)",
+     rule=("cases are (type, op, operand(s)); 11-bit types enumerated completely, wider types over a structured boundary set squared plus seeded random pairs "
+           "biased to products/sums near the range limits; non-trivial = every case other than the test-suite's 8 fixed small-operand points; counted by "
+           "construction (enumerations) or by hash of (type, op, operands)"),
+     stages=[
+         {"name": "main", "build": "fast", "bin": "c15"},
+         {"name": "release", "build": "release", "bin": "c15"},
+     ])
